@@ -22,6 +22,13 @@ impl MeshEdges<'_> {
         }
         let i_bound = self.boundary_loops[0].as_slice();
 
+        // A loop which passes through a vertex more than once belongs to a mesh that is pinched
+        // at that vertex (faces touching only at a vertex), which is not a disk
+        let unique_bound: HashSet<u32> = i_bound.iter().cloned().collect();
+        if unique_bound.len() != i_bound.len() {
+            return Err("Mesh boundary passes through a vertex more than once".into());
+        }
+
         // Get the inner vertices
         let i_inner = inner_vertices(self, i_bound)?;
 
